@@ -17,7 +17,7 @@ pub fn run_c04(args: &Args) -> i32 {
   rep.assume("limit = History depth capped at the writer's hard-coded resource limit 32 (KeepAll -> 32, absent -> 1)");
   rep.assume("writer timers are not polled: repair/cleaning/heartbeat steps are fired explicitly (logical time)");
   rep.assume("each fake reader has one unicast locator with its own port, so captures are keyed by destination");
-  let ncases = args.scale(30_000, 1_500_000);
+  let ncases = args.scale(30_000, 10_000_000);
   let seed = args.seed;
   let max_ev = if args.thorough() { 90 } else { 50 };
   let replay_case = crate::replay_index(args);
